@@ -96,6 +96,12 @@ func c13ObjectProgram(rt *rapid.T) (string, []string) {
 			fmt.Fprintf(&b, "obj%d.added = %d;\n%s(obj%d, \"%s\");\n%s %s(obj%d);\n%s %s(obj%d);\n", o, o, bn.BDelKey, o, strings.SplitN(parts[0], ":", 2)[0], bn.KwPrint, bn.BKeys, o, bn.KwPrint, bn.BValues, o)
 		}
 	}
+	if rapid.Bool().Draw(rt, "overwriteBuiltin") {
+		// state must not leak from one execution into the next one in the same process
+		bi := rapid.SampledFrom([]string{bn.BMax, bn.BLen, bn.BAbs, bn.BKeys}).Draw(rt, "builtin")
+		arg := map[string]string{bn.BMax: "1, 2", bn.BLen: "[1, 2]", bn.BAbs: "-3", bn.BKeys: "{a: 1}"}[bi]
+		b.WriteString(bn.KwPrint + " " + bi + "(" + arg + ");\n" + bi + " = " + rapid.SampledFrom([]string{bn.BMin, "nil", "7"}).Draw(rt, "newval") + ";\n")
+	}
 	if rapid.Bool().Draw(rt, "printFunctions") {
 		// function values, built-ins and containers holding them are printable values too
 		b.WriteString(bn.KwPrint + " t;\n" + bn.KwPrint + " [t, " + bn.BLen + ", " + bn.BClock + "];\n" + bn.KwPrint + " {f: t, g: " + bn.BInput + "};\n" + bn.KwPrint + " \"fn: \" + 1;\n")
